@@ -246,6 +246,86 @@ def recipient_case(exe, it, run, stats):
     return (b12, win, len(ops), tuple(sorted(set(o[0] for o in ops))))
 
 
+def client_forgery_case(exe, it, run, stats):
+    """the other direction: a libcoap OSCORE client observes a resource; forged responses
+    (right token and source address - both visible on the wire -, a Partial IV of the
+    forger's choosing, junk or tampered ciphertext) reach it between genuine notifications.
+    They fail authentication and must leave no trace: every later genuine notification
+    still reaches the response handler"""
+    r = common.rng("c15c-%d" % it)
+    c = mkctx(r)
+    w = world.World(exe, seed=r.getrandbits(30), cmd_timeout=20)
+    sim = world.Sim(w, latency=1)
+    witness = {"item": it, "seed": common.seed(), "kind": "client-forgery", "script": w.script}
+    try:
+        sim.add_node(0, block_mode=1)
+        sim.add_node(1, block_mode=1)
+        sim.cmd("oscore_server 1 %s" % conf_text(c["secret"], c["salt"], c["server_id"],
+                                                 c["client_id"], c["idctx"], False, 32))
+        sim.cmd("ep 1 udp %s" % SERVER)
+        sim.cmd("res 1 %s body=counter obs=1" % b"o".hex())
+        sim.cmd("sess 0 0 udp %s oscore=%s start_seq=%d" % (
+            SERVER, conf_text(c["secret"], c["salt"], c["client_id"], c["server_id"], c["idctx"],
+                              False, 32), r.choice([0, 5, 300])))
+        tok = "c7%02x" % (it & 255)
+        sim.cmd("send 0 0 type=0 code=1 token=%s opts=6=,11=6f" % tok)
+        sim.run(until=sim.elapsed() + 200, quiesce=False)
+        client_addr = [e["local"] for e in sim.log if e["e"] == "sess" and e.get("ok")][0]
+        delivered = []
+        forged = 0
+        steps = r.choice([3, 6, 10])
+        for k in range(steps):
+            mark = len(sim.log)
+            sim.cmd("notify 1 o")
+            sim.run(until=sim.elapsed() + 300, quiesce=False)
+            got = [e for e in sim.log[mark:] if e["e"] == "rsp" and e.get("n") == 0 and
+                   e["tok"] == tok]
+            delivered.append(len(got))
+            genuine = [e for e in sim.log[mark:] if e["e"] == "wire" and e["from"] == SERVER and
+                       e["to"] == client_addr]
+            if not genuine or r.random() < 0.3:
+                continue
+            # forge from the last genuine notification on the wire
+            try:
+                outer = cw.decode(bytes.fromhex(genuine[-1]["b"]), "udp")
+            except Exception:
+                continue
+            piv = r.choice([b"\xff\xff\xff\xff\xff", b"\xff\xff\xff\xff\xfe", b"\x7f\xff",
+                            b"\x64", b"\x00", None])
+            opts = []
+            for n, v in outer["options"]:
+                if n == 9:
+                    v = (bytes([len(piv)]) + piv) if piv is not None else b""
+                opts.append((n, v))
+            pl = bytes(r.getrandbits(8) for _ in range(r.choice([3, 9, 20, len(outer["payload"])])))
+            f = cw.msg(outer["code"], type=1, mid=(outer["mid"] + 0x4000) & 0xffff,
+                       token=outer["token"], options=opts, payload=pl)
+            mark = len(sim.log)
+            sim.inject(SERVER, client_addr, cw.encode(f, "udp"))
+            sim.run(until=sim.elapsed() + 50, quiesce=False)
+            forged += 1
+            stats["client_forgeries"] = stats.get("client_forgeries", 0) + 1
+            if any(e["e"] == "rsp" and e.get("n") == 0 for e in sim.log[mark:]):
+                run.violation("forgery-accepted/client-response", witness,
+                              "a forged response (Partial IV %r) reached the response handler"
+                              % (piv,))
+        witness["delivered_per_change"] = delivered
+        stats["client_notifications"] = stats.get("client_notifications", 0) + sum(delivered)
+        if forged and any(d == 0 for d in delivered[1:]) and delivered[0]:
+            first_bad = [i for i, d in enumerate(delivered) if d == 0 and i > 0][0]
+            run.violation("forgery-left-a-trace/client-response", witness,
+                          "after forged responses the client's handler no longer got the "
+                          "genuine notifications: deliveries per resource change %r (first "
+                          "missing at change %d)" % (delivered, first_bad))
+        world.teardown_check(run, "C15", w, witness)
+        return ("client-forgery", steps, forged > 0)
+    except world.WorldCrash as e:
+        world.crash_violation(run, "C15", e, witness)
+    finally:
+        if not w.closed:
+            w.close(kill=True)
+
+
 def sender_case(exe, it, run, stats):
     """libcoap client with ssn_freq; killed after a message boundary; restarted from the last
     value handed to the save callback"""
@@ -321,6 +401,8 @@ def work(job):
         try:
             if kind == "recipient":
                 sigs.add(recipient_case(exe, it, run, stats))
+            elif kind == "client-forgery":
+                sigs.add(client_forgery_case(exe, it, run, stats))
             else:
                 sigs.add(sender_case(exe, it, run, stats))
         except world.WorldCrash as e:
@@ -340,7 +422,9 @@ def main(tier):
                 "1,2,8,32,63, Appendix B.1.2 on (the reference performs the Echo exchange) and "
                 "off, each history also run without its forgeries; sender: libcoap client with "
                 "ssn_freq 1/2/4/10 (also changed between runs), killed after 0..7 messages, "
-                "restarted from the last saved value, 2-4 incarnations; distinct_nontrivial = "
+                "restarted from the last saved value, 2-4 incarnations; client: a libcoap OSCORE client "
+                "observing, forged responses (its token, Partial IV 0 .. 2^40-1 or none, junk "
+                "ciphertext) between genuine notifications; distinct_nontrivial = "
                 "distinct (B.1.2, window, length, operation kinds) / sender tuples")
     run.assumptions = ["the sender of the recipient-side histories is vf/refs/oscore.py",
                        "no model of the window is used: at-most-once, differential no-trace and "
@@ -350,6 +434,9 @@ def main(tier):
     chunk = 10
     jobs = [("recipient", list(range(i, min(nrec, i + chunk))), exe) for i in range(0, nrec, chunk)]
     jobs += [("sender", list(range(i, min(nsend, i + chunk))), exe) for i in range(0, nsend, chunk)]
+    ncli = 150 if tier == "quick" else 3000
+    jobs += [("client-forgery", list(range(i, min(ncli, i + chunk))), exe)
+             for i in range(0, ncli, chunk)]
     stats = {}
     for n, sigs, vios, st in common.parallel_map(work, jobs):
         run.evaluations += n
@@ -364,4 +451,6 @@ def main(tier):
     run.require("forgeries", stats.get("forgeries", 0), 300)
     run.require("sender_pivs", stats.get("pivs", 0), 300)
     run.require("server_pivs", stats.get("server_pivs", 0), 50)
+    run.require("client_forgeries", stats.get("client_forgeries", 0), 100)
+    run.require("client_notifications", stats.get("client_notifications", 0), 200)
     return run.finish()
